@@ -208,6 +208,93 @@ def _fwd_reaches(fun, a, b):
     return False
 
 
+def _coverage(chk, fb, f, fun, tgt, vname, info, S):
+    """every entry of the vector operand enters the sum: on each shape of the witness grid that lets the unconditional
+    statement run, the index sets of the statements that are active (their own guards hold, their loops are non-empty)
+    cover [0, size). Refuted with the shape and the missing entry; the guards of every statement must be exact
+    (a single path condition) for the verdict to be given."""
+    from . import e2
+    import itertools
+    construct = "coverage:%s:%s" % (tgt, vname)
+    if any(i_[3] is None or i_[5] or i_[7] for i_ in info):
+        chk.unknown("D5", f.key, construct, f.loc(info[0][0]), "a statement's index or guard is not interpretable")
+        return
+    dimv = fun.dims(f.obj(info[0][0]), info[0][0])
+    if not dimv or dimv[0] is None:
+        chk.unknown("D5", f.key, construct, f.loc(info[0][0]), "size of %s unknown" % vname)
+        return
+    # exact path condition per site
+    conds = []
+    for c, idx, st, b, rels, unparsed, cl, why in info:
+        inter, _ = fun.facts(c)
+        if not fun.disjuncts or fun.local_atoms or len(fun.disjuncts) > 8:
+            chk.unknown("D5", f.key, construct, f.loc(c), "path condition of a statement not exact")
+            return
+        loops = dict(cl)
+        loops.update(b[2])
+        conds.append(([list(dj) for dj in fun.disjuncts], loops, b[0], b[1], st, list(inter)))
+    base = min(conds, key=lambda x: len(x[5]))       # the least guarded statement stands for 'the function does not throw'
+    el = e2._elimination(S, base[5])
+    # loops shared by every statement (the i, j nest around the accumulation), not a statement's own inner loop
+    common_loops = {k_: v_ for k_, v_ in conds[0][1].items() if all(k_ in c_[1] and str(c_[1][k_]) == str(v_) for c_ in conds)}
+
+    def red(x):
+        for sym, val in el:
+            x = x.subs(sym, val)
+        return x
+    syms = set()
+    for cnd in conds:
+        for dj in cnd[0]:
+            for r in dj:
+                syms |= red(r).free_symbols if hasattr(red(r), "free_symbols") else set()
+        for a_, b_ in cnd[1].values():
+            syms |= red(a_ - b_).free_symbols
+        syms |= red(cnd[2] + cnd[3]).free_symbols
+    syms |= red(dimv[0]).free_symbols
+    syms = sorted(syms, key=str)
+    if len(syms) > 6:
+        chk.unknown("D5", f.key, construct, f.loc(info[0][0]), "too many size symbols")
+        return
+    checked = 0
+    errs = []
+    for vals in itertools.product(range(0, 5), repeat=len(syms)):
+        env = dict(zip(syms, vals))
+        try:
+            if not any(all(bool(red(r).subs(env)) for r in dj) for dj in base[0]):
+                continue
+            if not all(int(red(v_).subs(env)) >= 0 for _, v_ in el):
+                continue
+            # outer loops of the base statement must run
+            if not all(int(red(b_ - a_).subs(env)) > 0 for nm, (a_, b_) in common_loops.items()):
+                continue
+            n = int(red(dimv[0]).subs(env))
+            covered = set()
+            for djs, loops, lo, hi, st, _i in conds:
+                if not any(all(bool(red(r).subs(env)) for r in dj) for dj in djs):
+                    continue
+                if not all(int(red(b_ - a_).subs(env)) > 0 for a_, b_ in loops.values()):
+                    continue
+                l_, h_ = int(red(lo).subs(env)), int(red(hi).subs(env))
+                covered |= set(range(max(l_, 0), h_ + 1))
+            checked += 1
+            missing = [x for x in range(n) if x not in covered]
+            if missing:
+                full = e2._full_env(S, env, el)
+                chk.refuted("D5", f.key, construct, f.loc(info[0][0]),
+                            "%s: entry %s[%d] never enters %s on a shape the guards allow: its term is lost" % (f.name, vname, missing[0], tgt), witness={"shape": full})
+                return
+        except Exception as ex:
+            errs.append(repr(ex)[:120])
+            continue
+    if errs and not checked:
+        chk.unknown("D5", f.key, construct, f.loc(info[0][0]), "shape evaluation failed: %s" % errs[0])
+        return
+    if checked:
+        chk.proved("D5", f.key, construct, f.loc(info[0][0]), "on all %d admissible shapes with sizes 0..4 every entry of %s enters %s (bounded: sizes above 4 follow the same piecewise-linear index sets)" % (checked, vname, tgt))
+    else:
+        chk.unknown("D5", f.key, construct, f.loc(info[0][0]), "no admissible shape on the grid")
+
+
 def _d5(chk, fb):
     """a vector operand that enters one output entry through several statements (first term, interior loop, last term of the
     tridiagonal product) must be read at pairwise disjoint index sets that together cover the vector, for every shape"""
@@ -300,6 +387,8 @@ def _d5(chk, fb):
                                     f.name, vname, wit[1], tgt, a[2].get("l"), b_[2].get("l")), witness={"shape": {str(k): int(v) for k, v in wit[0].items()}})
                 else:
                     chk.unknown("D5", f.key, construct, f.loc(a[0]), "neither proved disjoint nor a doubly used entry found")
+            # coverage: together the statements must read every entry of the operand (for every shape the guards allow)
+            _coverage(chk, fb, f, fun, tgt, vname, info, S)
     chk.floor("D5", "vector operands read by several statements of one accumulation", n_groups, 3)
 
 
